@@ -38,40 +38,40 @@ Each lemma concludes about the index that the C code uses. -/
 
 theorem g_index_arr (n size : Int) (hs : 0 ≤ size) (hs2 : size ≤ 65535)
     (h1 : guard_index_arr_neg n = false) (h2 : guard_index_arr n size = false) :
-    0 ≤ trunc32 n ∧ trunc32 n < size := by
+    0 ≤ idx_index_arr n ∧ idx_index_arr n < size := by
   simp [guard_index_arr_neg, guard_index_arr, trunc64] at h1 h2
-  unfold trunc32; omega
+  unfold idx_index_arr trunc32; omega
 
 theorem g_rindex_arr (n size : Int) (hs : 0 ≤ size) (hs2 : size ≤ 65535)
     (h : guard_rindex_arr n size = false) :
-    0 ≤ size - trunc32 n ∧ size - trunc32 n < size ∧ inS32 (size - trunc32 n) = true := by
+    0 ≤ idx_rindex_arr size n ∧ idx_rindex_arr size n < size ∧ inS32 (size - trunc32 n) = true := by
   simp [guard_rindex_arr, trunc64] at h
   simp only [inS32_iff]
-  unfold trunc32; omega
+  unfold idx_rindex_arr trunc32; omega
 
 /-- strings: the index may equal the length (the NUL is read) -/
 theorem g_index_str (n slen : Int) (hs : 0 ≤ slen) (hs2 : slen ≤ 2147483647)
-    (h : guard_index_str n slen = false) : 0 ≤ trunc32 n ∧ trunc32 n ≤ slen := by
+    (h : guard_index_str n slen = false) : 0 ≤ idx_index_str n ∧ idx_index_str n ≤ slen := by
   simp [guard_index_str, trunc64] at h
-  unfold trunc32; omega
+  unfold idx_index_str trunc32; omega
 
 theorem g_rindex_str (n slen : Int) (hs : 0 ≤ slen) (hs2 : slen ≤ 2147483647)
     (h : guard_rindex_str n slen = false) :
-    0 ≤ trunc32 (truncU64 (slen - n)) ∧ trunc32 (truncU64 (slen - n)) ≤ slen := by
+    0 ≤ idx_rindex_str slen n ∧ idx_rindex_str slen n ≤ slen := by
   simp [guard_rindex_str, trunc64] at h
-  unfold trunc32 truncU64; omega
+  unfold idx_rindex_str trunc32 truncU64; omega
 
 /-- buffers: the index is strictly below the size (the `>` that accepted i = size is repaired) -/
 theorem g_index_buf (n size : Int) (hs : 0 ≤ size) (hs2 : size ≤ 2147483647)
-    (h : guard_index_buf n size = false) : 0 ≤ trunc32 n ∧ trunc32 n < size := by
+    (h : guard_index_buf n size = false) : 0 ≤ idx_index_buf n ∧ idx_index_buf n < size := by
   simp [guard_index_buf, trunc64] at h
-  unfold trunc32; omega
+  unfold idx_index_buf trunc32; omega
 
 theorem g_rindex_buf (n size : Int) (hs : 0 ≤ size) (hs2 : size ≤ 2147483647)
     (h : guard_rindex_buf n size = false) :
-    0 ≤ trunc32 (truncU32 (size - trunc32 n)) ∧ trunc32 (truncU32 (size - trunc32 n)) < size := by
+    0 ≤ idx_rindex_buf size n ∧ idx_rindex_buf size n < size := by
   simp [guard_rindex_buf, trunc64] at h
-  unfold trunc32 truncU32; omega
+  unfold idx_rindex_buf trunc32 truncU32; omega
 
 /-! ### push_indexed_lvalue -/
 
